@@ -72,6 +72,10 @@ def gen_case(rng: random.Random, tier: str, index: int) -> dict:
     return {
         "T": T, "n": n, "fails": fails, "mode": mode, "p": p,
         "reuse": rng.random() < 0.6,
+        # the abandoned iterator of the first call is still referenced when
+        # the pool is reused and is closed in the middle of the second call
+        "keep_old_iter": rng.random() < 0.3,
+        "close_old_at": rng.randrange(0, 2 * T + 5),
         "n2": rng.randrange(0, 2 * T + 5),
         "fail_in_second": rng.random() < 0.1,
         "policy": policy,
@@ -155,14 +159,19 @@ def run_case(case: dict) -> dict:
             p2 = case.get("pool2")
             other: list = []
             try:
+                old_iter = None
                 if not p2:
                     with pool:
-                        for r in pool.imap_unordered(f, source(n)):
+                        gen1 = pool.imap_unordered(f, source(n))
+                        if case.get("keep_old_iter"):
+                            old_iter = gen1
+                        for r in gen1:
                             results.append(r)
                             sc.log("result", r)
                             if case["mode"] == "early" and len(
                                     results) >= case["p"]:
                                 break
+                        del gen1
                 else:
                     probes["two_pools_interleaved"] += 1
                     pool2 = lp.LazyPool(p2["T"])
@@ -246,6 +255,11 @@ def run_case(case: dict) -> dict:
                         for r in pool.imap_unordered(f2, source(case["n2"])):
                             second.append(r)
                             sc.log("result2", r)
+                            if (old_iter is not None and
+                                    len(second) > case.get("close_old_at", 0)):
+                                old_iter.close()
+                                old_iter = None
+                                probes["old_iterator_closed_during_reuse"] += 1
                 except (S.SimDeadlock, S.SimStepLimit):
                     raise
                 except Exception as e:  # pylint: disable=broad-except
@@ -370,7 +384,8 @@ def reach(agg: dict) -> list[str]:
     p = agg["probes"]
     if agg["evaluations"] < 200:
         need.append("fewer than 200 runs")
-    for name in ("prefill_contained_sentinels", "early_exit", "pool_reused",
+    for name in ("old_iterator_closed_during_reuse",
+                 "prefill_contained_sentinels", "early_exit", "pool_reused",
                  "two_pools_interleaved",
                  "n_between_T_and_prefill"):
         if not p.get(name):
